@@ -1,6 +1,6 @@
 SPECIFICATION Spec
 CONSTANTS
-  K = 24
+  K = 26
   MaxLen = 3
 INVARIANT Export
 CHECK_DEADLOCK FALSE
